@@ -48,10 +48,11 @@ fn geom_of(c: &ValidCase) -> Geom {
     g.tail = c.tail;
     g.status = if c.bootable { 0x80 } else { 0x00 };
     if c.fat32 {
-        g.fsinfo_block = 1;
         if c.reserved < 2 {
             g.reserved = 2;
         }
+        // the information sector directly behind the boot sector, or as the last reserved sector
+        g.fsinfo_block = if c.slot % 2 == 1 && g.reserved >= 3 { g.reserved - 1 } else { 1 };
     }
     g
 }
@@ -308,7 +309,7 @@ fn set_field(blk: &mut Blk, fld: &Field, val: u32) {
     }
 }
 
-fn mutate(base: &InvalidBase, muts: &[(Field, u32)]) -> Image {
+fn mutate(base: &InvalidBase, muts: &[(Field, u32)], follow: bool) -> Image {
     let mut img = Image::new(base.img.clone());
     // a mutated lba_start/fs_info moves where the crate looks; the sectors there are whatever the image holds
     for (fld, val) in muts {
@@ -321,11 +322,32 @@ fn mutate(base: &InvalidBase, muts: &[(Field, u32)]) -> Image {
         set_field(&mut b, fld, *val);
         img.put(idx, &b);
     }
+    if follow {
+        // the (mutated) boot and information sectors are also present where the mutated partition start and
+        // information-sector fields point, so the parser gets past them with extreme positions
+        let find = |n: &str| muts.iter().find(|(f, _)| f.name == n).map(|(_, v)| *v);
+        let new_lba = find("mbr.lba_start").unwrap_or(base.lba);
+        let new_info = find("bpb.fs_info").unwrap_or(base.info_rel);
+        let bs = img.rd(base.lba);
+        let is = img.rd(base.lba + base.info_rel);
+        if new_lba != 0 {
+            img.put(new_lba, &bs);
+        }
+        if let Some(i) = new_lba.checked_add(new_info) {
+            if i != 0 && i != new_lba {
+                img.put(i, &is);
+            }
+        }
+    }
     img
 }
 
-fn check_invalid(base: &InvalidBase, muts: &[(Field, u32)]) -> Option<Violation> {
-    let img = mutate(base, muts);
+fn moves_sectors(muts: &[(Field, u32)]) -> bool {
+    muts.iter().any(|(f, _)| f.name == "mbr.lba_start" || f.name == "bpb.fs_info")
+}
+
+fn check_invalid(base: &InvalidBase, muts: &[(Field, u32)], follow: bool) -> Option<Violation> {
+    let img = mutate(base, muts, follow);
     match mount_only(img, base.slot) {
         Caught::Panic(m) => {
             let kind = if m.contains("divide by zero") {
@@ -337,8 +359,8 @@ fn check_invalid(base: &InvalidBase, muts: &[(Field, u32)]) -> Option<Violation>
             };
             Some(v(
                 &format!("invalid-layout/open_volume-panics/{}", kind),
-                format!("base {} with {}: {}", base.name, muts.iter().map(|(f, x)| format!("{}={:#x}", f.name, x)).collect::<Vec<_>>().join(", "), m),
-                json!({"kind":"invalid","base":base.name,"muts":muts.iter().map(|(f,x)| json!([f.name, x])).collect::<Vec<_>>()}),
+                format!("base {} with {}{}: {}", base.name, muts.iter().map(|(f, x)| format!("{}={:#x}", f.name, x)).collect::<Vec<_>>().join(", "), if follow { " (boot and information sectors present at the positions these fields designate)" } else { "" }, m),
+                json!({"kind":"invalid","base":base.name,"follow":follow,"muts":muts.iter().map(|(f,x)| json!([f.name, x])).collect::<Vec<_>>()}),
             ))
         }
         _ => None,
@@ -406,7 +428,7 @@ pub fn replay_input(inp: &Value) -> i32 {
                 .iter()
                 .map(|m| (*fl.iter().find(|f| Some(f.name) == m[0].as_str()).unwrap(), m[1].as_u64().unwrap() as u32))
                 .collect();
-            check_invalid(base, &muts)
+            check_invalid(base, &muts, inp["follow"].as_bool().unwrap_or(false))
         }
         Some("reference") => {
             let bad = crate::selftest::crate_on_reference_images();
@@ -493,8 +515,17 @@ pub fn run(tier: &str) -> i32 {
                 }
             }
         }
-        let res: Vec<Option<Violation>> = par_map(jobs.len(), |i| check_invalid(base, &jobs[i]));
+        let res: Vec<Option<Violation>> = par_map(jobs.len(), |i| check_invalid(base, &jobs[i], false));
         invalid_n += jobs.len() as u64;
+        for x in res.into_iter().flatten() {
+            if !viols.iter().any(|y| y.sig == x.sig) {
+                viols.push(x);
+            }
+        }
+        // the same with the sectors following the mutated position fields
+        let moved: Vec<&Vec<(Field, u32)>> = jobs.iter().filter(|j| moves_sectors(j)).collect();
+        let res: Vec<Option<Violation>> = par_map(moved.len(), |i| check_invalid(base, moved[i], true));
+        invalid_n += moved.len() as u64;
         for x in res.into_iter().flatten() {
             if !viols.iter().any(|y| y.sig == x.sig) {
                 viols.push(x);
